@@ -12,6 +12,13 @@
    a driver prints them, shapes, iteration orders, tape positions, error values, formatted
    output) must be byte-identical.  A difference is a concrete failing input: the case and the
    two execution modes are the replay.
+3. C18's own workload (harness/src/c18.rs: f64 bit patterns of determinants, inverses, products,
+   statistics, decompositions, densities and draws, reverse/forward derivatives with tape
+   positions, Display/Debug output of tensors, views, matrices and error values) goes through the
+   same modes; in addition, within one execution, every result computed twice must be identical
+   (`bits=… again=…`), the same expression recorded later on a longer tape must give the same
+   values at shifted positions, and cases that differ only in where the dimension-name strings
+   are stored (literals, separate heap copies, slices of one static string) must agree.
 """
 import hashlib
 import json
@@ -106,6 +113,42 @@ def hidden_state_scan(repo):
     return hits
 
 
+
+def own_checks(ops, answers):
+    """Checks inside one execution of C18's own workload.  Returns a list of (line, what)."""
+    bad = []
+    by_case = {}
+    for i, (op, a) in enumerate(zip(ops, answers)):
+        toks = op.split()
+        if a.startswith("panic(") or a == "bad-op":
+            bad.append((i, "the workload case did not complete: " + a))
+            continue
+        if toks[1] in ("det", "inverse"):
+            m = re.fullmatch(r"bits=(\S+) again=(\S+)", a)
+            if not m or m.group(1) != m.group(2):
+                bad.append((i, "the same computation repeated in the same process gave different bits"))
+        elif toks[1] == "autodiff":
+            parts = [p.strip() for p in a.split("|")]
+            if len(parts) == 3:
+                v1 = re.sub(r" pos=\S+", "", parts[0])
+                v2 = re.sub(r" pos=\S+", "", parts[1])
+                p1 = re.search(r"pos=(\d+),(\d+),(\d+)", parts[0])
+                p2 = re.search(r"pos=(\d+),(\d+),(\d+)", parts[1])
+                shifts = {int(b) - int(a_) for a_, b in zip(p1.groups(), p2.groups())} if p1 and p2 else set()
+                if v1 != v2 or len(shifts) != 1:
+                    bad.append((i, "the same expression recorded after earlier entries gave different values "
+                                   "or positions that are not a uniform shift"))
+        elif toks[1] == "names":
+            key = " ".join(toks[:2] + toks[3:])
+            by_case.setdefault(key, []).append((i, toks[2], a))
+    for key, group in by_case.items():
+        if len({a for _i, _s, a in group}) > 1:
+            i = group[-1][0]
+            bad.append((i, "answers depend on where the dimension-name strings are stored: "
+                        + ", ".join(f"{s}" for _i, s, _a in group)))
+    return bad
+
+
 MODES = [
     ("main-thread", {}),
     ("spawned-thread+perturbed-heap", {"EMLV_THREAD": "1", "EMLV_PERTURB": "11"}),
@@ -132,8 +175,10 @@ def run(ctx):
                                      "state / address / environment dependence",
                            "hits": hits[:20]})
     wd = os.path.join(ctx["work"], "sweep")
-    pids = _sweep.line_protocol_properties(ctx["root"], exclude={"C18", "C10"})
+    pids = _sweep.line_protocol_properties(ctx["root"], exclude={"C18"}) + ["C18"]
     total_ops, total_runs, programs = 0, 0, 0
+    float_lines = 0
+    distinct_ops = 0
     per_prop = {}
     for pid in pids:
         ops, ops_path = _sweep.generate(ctx, pid, ctx["tier"], ctx["seed"], wd)
@@ -146,11 +191,23 @@ def run(ctx):
             outs.append((name, out_path, rc))
             total_runs += 1
         total_ops += len(ops)
+        distinct_ops += len(set(ops))
         programs += sum(1 for l in ops if l.startswith("@"))
         base_name, base_path, base_rc = outs[0]
         d0 = digest(base_path)
         per_prop[pid] = {"operations": len(ops), "digest": d0[:16], "modes": len(outs)}
         base_lines = open(base_path, encoding="utf-8", errors="replace").read().split("\n")
+        float_lines += sum(1 for l in base_lines if re.search(r"\b[0-9a-f]{16}\b|\bbits\b|to_bits|f64", l))
+        if pid == "C18":
+            for k, what in own_checks(ops, base_lines)[:3]:
+                toks = ops[k].split()
+                group = [o for o in ops if toks[1] == "names" and o.split()[1] == "names"
+                         and o.split()[3:] == toks[3:]] or [ops[k]]
+                violations.append({
+                    "case": f"C18: {ops[k]}", "property_workload": "C18", "ops": group, "own_check": True,
+                    "mode_a": base_name, "mode_b": base_name, "answer_a": base_lines[k][:600],
+                    "explanation": what, "replay_argv": ["python3", "props/c18_extra.py", "replay"],
+                })
         for name, path, rc in outs[1:]:
             if digest(path) == d0 and rc == base_rc:
                 continue
@@ -174,8 +231,13 @@ def run(ctx):
     cov["programs"] = max(programs, 1)
     cov["disagreements_checked"] = total_runs
     cov["evaluations"] = total_ops * len(MODES)
-    cov["distinct_nontrivial"] = total_ops
+    cov["distinct_nontrivial"] = distinct_ops
+    cov["rule"] = ("every generated operation line of every line-protocol property (and of C18's own float / "
+                   "formatting workload) executed in each execution mode; distinct = distinct operation lines "
+                   "per workload; programs = independent cases (`@` segments); disagreements_checked = "
+                   "(workload, mode) executions whose complete answer stream was compared with the main-thread one")
     cov["execution_modes"] = [m[0] for m in MODES]
+    cov["answer_lines_with_float_bit_patterns"] = float_lines
     cov["workloads"] = per_prop
     cov["cannot_exhibit"] = ("dependence on address-space layout that happens not to vary across these "
                              "executions; differences between machines / libm versions")
@@ -191,6 +253,15 @@ if __name__ == "__main__":
     import verif
     b = verif.build_harness()
     ops = "".join(l + "\n" for l in payload["ops"]).encode()
+    if payload.get("own_check"):
+        p = subprocess.run([b, "run", "C18"], input=ops, stdout=subprocess.PIPE, env=dict(verif.ENV))
+        answers = p.stdout.decode().split("\n")
+        for o, a in zip(payload["ops"], answers):
+            print(o, "->", a[:400])
+        bad = own_checks(payload["ops"], answers[:len(payload["ops"])])
+        for k, what in bad:
+            print("FAILS:", payload["ops"][k], "—", what)
+        sys.exit(1 if bad else 0)
     res = {}
     for name, env in MODES:
         if name in (payload["mode_a"], payload["mode_b"]):
